@@ -377,7 +377,9 @@ def main():
     for sig, k in known_seen.items():
         print("KNOWN-FINDING: property=%s %s" % (cid, k["what"]))
 
-    if not replay:
+    if not replay and not os.environ.get("VERIF_NO_EVIDENCE") and not only_parts:
+        # evidence describes a complete run of the check on the tree as it is; partial runs
+        # (VERIF_PARTS) and runs against a deliberately changed tree (tools/seedtest.sh) leave it alone
         write_evidence(cid, check, tier, seed, merged_parts, len(real), known_seen, time.time() - t0)
     for m in merged_parts:
         print("part %-14s evaluations=%d states=%d transitions=%d outcomes=%d nontrivial=%d exhaustive=%s violations=%d %s" % (
